@@ -20,14 +20,23 @@ var c13Atoms = append(append([]ora.Atom{}, c09Atoms...),
 	ora.Atom{Name: "LBL", Gen: func(t *ora.Tok) string {
 		return "<div class=\"comment\"><h3>" + t.W(3) + "</h3><ul><li>" + t.W(12) + "</li><li>" + t.W(9) + " <a href=\"/x\">" + t.W(2) + "</a></li></ul></div>"
 	}},
+	ora.Atom{Name: "FALLB", Gen: func(t *ora.Tok) string {
+		return "<p>" + t.W(12) + " <span class=\"mwe-math-fallback-image-inline\" aria-hidden=\"true\">" + t.W(2) + "</span> " + t.W(8) + "</p><img class=\"fallback-image\" aria-hidden=\"true\" src=\"http://example.com/img/" + t.U() + ".png\" width=\"400\" height=\"300\">"
+	}},
+	ora.Atom{Name: "ARIAf", Gen: func(t *ora.Tok) string {
+		return "<p>" + t.W(12) + " <span aria-hidden=\"false\" style=\"display:inline\">" + t.W(2) + "</span> <span aria-hidden=\"true\">" + t.W(1) + "</span> " + t.W(8) + "</p>"
+	}},
+	ora.Atom{Name: "PAGER3", Gen: func(t *ora.Tok) string {
+		return "<div class=\"pagination\"><a href=\"/story?page=1\">Prev</a> <a href=\"/story?page=3\">Next</a></div><div class=\"footer-nav\"><a href=\"/story?page=1&amp;utm=f\">Prev</a> <a href=\"/story?page=3&amp;utm=f\">Next</a></div>"
+	}},
 	ora.Atom{Name: "OG", Gen: func(t *ora.Tok) string {
 		return "<div itemscope itemtype=\"http://schema.org/Article\"><span itemprop=\"headline\">" + t.W(3) + "</span><span itemprop=\"author\">" + t.W(2) + "</span></div>"
 	}},
 )
 
-var c13Alphabet = []string{"Pc", "Pb", "H", "UL3", "TBLd", "TBLl", "TBLi", "IMG", "IMGss", "LAZY", "FIG", "FIGl", "VID", "YT", "TW", "INL", "JS1", "HIDs", "PAGER", "PAGER2", "LBL", "OG"}
+var c13Alphabet = []string{"Pc", "Pb", "H", "UL3", "TBLd", "TBLl", "TBLi", "IMG", "IMGss", "LAZY", "FIG", "FIGl", "VID", "YT", "TW", "INL", "JS1", "HIDs", "PAGER", "PAGER2", "PAGER3", "LBL", "OG", "FALLB", "ARIAf"}
 
-const c13URL = "http://example.com/story?page=2"
+const c13URL = "http://example.com/story?page=2#section-2"
 
 func c13Enumerate(tier string, emit func(*eng.Case)) {
 	atoms := c13Atoms
@@ -128,7 +137,7 @@ func init() {
 	eng.Register(&eng.Prop{
 		ID:        "C13",
 		DesignRef: "§5 C13",
-		Rule: "corpus = S1,S2 with <= 1 insertion (quick; plus all pairs containing a pager atom) / <= 2 insertions (thorough) over 22 atoms chosen for what the logging code walks (tables, images, embeds, two pagers, multi-label comment block, schema.org item); each document is executed under all 128 configurations (16 log-flag sets x URL nil/set x SkipPagination x 2 algorithms). " +
+		Rule: "corpus = S1,S2 with <= 1 insertion (quick; plus all pairs containing a pager atom) / <= 2 insertions (thorough) over 25 atoms chosen for what the logging code walks (tables, images, embeds, three pagers, visibility special cases (fallback-image, aria-hidden), multi-label comment block, schema.org item); each document is executed under all 128 configurations (16 log-flag sets x URL nil/set x SkipPagination x 2 algorithms). " +
 			"Oracle: Title/Text/HTML/WordCount/ContentImages/MarkupInfo identical across the 64 configurations of a URL class; PaginationInfo identical across flag sets for fixed (URL, skip, algorithm) and empty when skipped or without URL; Result.URL = supplied URL. Non-trivial = some configuration found a pagination link.",
 		Enumerate: c13Enumerate,
 		Check:     c13Check,
